@@ -101,6 +101,7 @@ func simCase(run *vkit.Run, i int) {
 	// --- control: nobody forges; also yields the delivery trace
 	ctl := runForger(c, "", -1, 400_000, 0)
 	run.Count("sim_runs_total", 1)
+	run.Eval(1)
 	run.Count("sim_runs_control", 1)
 	if bad(ctl) {
 		return
@@ -129,6 +130,8 @@ func simCase(run *vkit.Run, i int) {
 		}
 		out := runForger(c, class, at, budget, run.SubSeed(int64(i))+int64(ci)*7919)
 		run.Count("sim_runs_total", 1)
+		run.Eval(1)
+	run.Eval(1)
 		if bad(out) {
 			continue
 		}
@@ -209,6 +212,7 @@ func simCase(run *vkit.Run, i int) {
 	}
 	dctl := runDriver(d, false, 0, 0, advPower, 400_000)
 	run.Count("sim_runs_total", 1)
+	run.Eval(1)
 	run.Count("sim_runs_control", 1)
 	if bad(dctl) {
 		return
@@ -220,6 +224,7 @@ func simCase(run *vkit.Run, i int) {
 	victim := rng.Intn(d.Honest)
 	dis := runDriver(d, true, victim, rng.Intn(3), advPower, 400_000)
 	run.Count("sim_runs_total", 1)
+	run.Eval(1)
 	if bad(dis) {
 		return
 	}
